@@ -81,9 +81,10 @@ impl  == <<win, st, ctr, cache, rs, obs, scr>>
 ghost == <<fn, adm, leaves, hcls, dem, wr, nw, synced, runs, qruns, last, seen, st0>>
 vars  == <<impl, ghost, hist>>
 (* every growing variable is bounded by a guard on nw, so the reachable graph is finite without a step bound; the absolute
-   values of sequences / versions / counter are left out of the view (what a run consumed is kept in rs.touched, rs.used) *)
-view  == <<win, [d \in Docs |-> [ch |-> st[d].ch, acc |-> st[d].acc, rol |-> st[d].rol]], cache, rs, obs,
-           fn, adm, leaves, hcls, dem, wr, nw, synced, runs, qruns, last, st0>>     \* seen, scr: see FromScratchAll
+   values of sequences / versions / counter are left out of the view (what a run consumed is kept in rs.touched, rs.used),
+   and so are the observations: a request matters to the future only through the principal documents it recomputes *)
+view  == <<win, [d \in Docs |-> [ch |-> st[d].ch, acc |-> st[d].acc, rol |-> st[d].rol]], cache, rs,
+           fn, adm, leaves, hcls, dem, wr, nw, synced, runs, qruns, last, st0>>     \* obs, seen, scr: see PrincipalsFreshAll, FromScratchAll
 
 -----------------------------------------------------------------------------
 (* the table *)
@@ -279,7 +280,7 @@ ImplRequest(u) ==
 GhostRequest(u) ==
   /\ seen' = [seen EXCEPT ![u] = obs']
   /\ UNCHANGED <<fn, adm, leaves, hcls, dem, wr, nw, synced, runs, qruns, last, st0>>
-Request(u) == ~rs.on /\ ~seen[u].on /\ ImplRequest(u) /\ GhostRequest(u) /\ Step([a |-> "Request", u |-> u])
+Request(u) == ~rs.on /\ (ReqCache(u) # cache \/ ~seen[u].on) /\ ImplRequest(u) /\ GhostRequest(u) /\ Step([a |-> "Request", u |-> u])
 
 Scratch ==
   /\ ~rs.on /\ ~scr.on
